@@ -206,6 +206,7 @@ func runC19(c *Ctx) {
 	ruleNullableTotal(c, p, "C19.nullable-total")
 	ruleDecimalGuard(c, p, "C19.decimal-guard")
 	ruleScale(c, p, "C19.scale")
+	ruleStringIndexGuard(c, p, "C19.index-guard")
 	ruleFreshTargets(c, p, "C19.fresh")
 	ruleMapInfer(c, p, "C19.mapinfer")
 	ruleForwardUnconditional(c, p, "C19.forward-always")
